@@ -30,10 +30,10 @@ func splitmix(x *uint64) uint64 {
 func Mix(vals ...uint64) uint64 {
 	s := uint64(0x243f6a8885a308d3)
 	for _, v := range vals {
-		s ^= v + 0x9e3779b97f4a7c15 + (s << 6) + (s >> 2)
-		_ = splitmix(&s)
+		x := s ^ v
+		s = splitmix(&x) + 0x632be59bd9b4e019
 	}
-	return splitmix(&s)
+	return s
 }
 
 func HashString(s string) uint64 {
